@@ -44,8 +44,24 @@ type Pair struct {
 //	0 CPU units   1 memory size   2 storage size   3 CPU attributes   4 memory attributes   5 storage attributes
 //
 // and rotates the encodings of the two endpoint kinds; odd schemes add a non-global expose to every service (it must
-// not count as an endpoint). The oracle does not know about schemes: all of them must be judged alike.
+// not count as an endpoint). Schemes 3..5 add a BALLAST to every group on BOTH sides: one more resource record /
+// service of a unit class of its own, one replica, one http endpoint, at varying positions. Adding the same element
+// to both multisets changes neither their equality nor any difference, so the oracle's answer for the abstract
+// pair is the answer for the ballasted pair; what it buys is that ValidateManifest ("zero global services", "group
+// contains no services") no longer masks the cross-validation result for pairs without endpoints.
+// The oracle does not know about schemes: all of them must be judged alike.
 const NSchemes = 6
+
+// Ballast tells whether scheme s adds the ballast element.
+func Ballast(s int) bool { return s >= 3 }
+
+func ballastUnits() atypes.ResourceUnits {
+	return atypes.ResourceUnits{
+		CPU:     &atypes.CPU{Units: atypes.NewResourceValue(500)},
+		Memory:  &atypes.Memory{Quantity: atypes.NewResourceValue(512 * mi)},
+		Storage: &atypes.Storage{Quantity: atypes.NewResourceValue(256 * mi)},
+	}
+}
 
 const (
 	mi = uint64(1024 * 1024)
@@ -118,6 +134,16 @@ func DGroups(d []Grp, s int, owner string, dseq uint64) ([]dtypes.Group, error) 
 			ru.Endpoints = endpoints(s, r.HTTP, r.Other)
 			res = append(res, dtypes.Resource{Resources: ru, Count: r.C, Price: sdk.NewInt64Coin("uakt", 1)})
 		}
+		if Ballast(s) {
+			bu := ballastUnits()
+			bu.Endpoints = []atypes.Endpoint{{Kind: atypes.Endpoint_SHARED_HTTP}}
+			b := dtypes.Resource{Resources: bu, Count: 1, Price: sdk.NewInt64Coin("uakt", 1)}
+			if s == 4 {
+				res = append(res, b)
+			} else {
+				res = append([]dtypes.Resource{b}, res...)
+			}
+		}
 		out = append(out, dtypes.Group{
 			GroupID:   dtypes.GroupID{Owner: owner, DSeq: dseq, GSeq: uint32(gi + 1)},
 			State:     dtypes.GroupOpen,
@@ -181,6 +207,16 @@ func Manifest(m []Grp, s int) (manifest.Manifest, error) {
 				svc.Expose = append(svc.Expose, manifest.ServiceExpose{Port: 80, Proto: manifest.TCP, Service: "peer", Global: false})
 			}
 			mg.Services = append(mg.Services, svc)
+		}
+		if Ballast(s) {
+			b := manifest.Service{Name: "ballast", Image: "registry.example/ballast:1", Resources: ballastUnits(), Count: 1,
+				Expose: []manifest.ServiceExpose{{Port: 80, Proto: manifest.TCP, Global: true,
+					Hosts: []string{fmt.Sprintf("ballast-g%d.example.com", gi)}}}}
+			if s == 3 {
+				mg.Services = append(mg.Services, b)
+			} else {
+				mg.Services = append([]manifest.Service{b}, mg.Services...)
+			}
 		}
 		out = append(out, mg)
 	}
